@@ -51,10 +51,17 @@ def main():
             report["apply_error"] = out[-800:]
             print(json.dumps(report, indent=1)); return 1
         cache = f"/tmp/seed_baseline_{head}.json"
-        if os.path.exists(cache):
-            base = json.load(open(cache))
-        else:
-            base = pass_set(wt); json.dump(base, open(cache, "w"))
+        import fcntl
+        with open(cache + ".lock", "w") as lk:          # several verifications start together: only one computes the baseline
+            fcntl.flock(lk, fcntl.LOCK_EX)
+            if os.path.exists(cache):
+                base = json.load(open(cache))
+            else:
+                base = pass_set(wt)
+                if sum(1 for v in base.values() if v == "PASSED") < 50:      # a killed / starved pytest run: never cache it
+                    report["baseline_error"] = f"baseline run produced only {len(base)} results"
+                    print(json.dumps(report, indent=1)); return 1
+                json.dump(base, open(cache, "w"))
         report["baseline_passed"] = sum(1 for v in base.values() if v == "PASSED")
         rc0, out0 = sh(f"{PY} SEEDX/demo.py {wt}", cwd=wt, timeout=1200)
         sh("git clean -fdq examples", cwd=wt)
